@@ -26,7 +26,8 @@ import zlib
 
 from . import common
 from .c16_gen import (PYWS, gen_range_header, gen_len, gen_request, gen_elements_value,
-                      enum_small_headers, enum_medium_headers, enum_decision_table, content_bytes, httpdate)
+                      enum_small_headers, enum_medium_headers, enum_decision_table, enum_flow_table,
+                      content_bytes, httpdate)
 
 PROPERTY = 'C16'
 LEAN_TARGETS = ['CpProofs.C16', 'CpProofs.C16Cond', 'CpProofs.C16Elems', 'CpProofs.C16Multipart', 'drv_c16']
@@ -382,6 +383,18 @@ def shrink_request(case, sig):
             cands.append(dict(cur, etags=cur['etags'] - 1))
         if cur['method'] != 'GET':
             cands.append(dict(cur, method='GET'))
+        if cur.get('stream'):
+            cands.append(dict(cur, stream=0))
+        if cur.get('shape', 'bytes') != 'bytes':
+            cands.append(dict(cur, shape='bytes'))
+        if cur['kind'] == 'gen':
+            sc = case_script(cur)
+            for i in range(len(sc)):
+                cands.append(dict(cur, script=sc[:i] + sc[i + 1:]))
+            if cur.get('lm') is not None and 'S' not in sc:
+                cands.append(dict(cur, lm=None))
+        if cur['proto'] != '1.1':
+            cands.append(dict(cur, proto='1.1'))
         if cur['kind'] in ('tool', 'fobj'):
             cands.append(dict(cur, kind='file'))
         n = len(content_bytes(cur))
@@ -518,27 +531,43 @@ class _Env:
 
             @cherrypy.expose
             def gen(self):
+                # a handler-generated entity; the handler may validate by itself, before or after it
+                # produced its body (the script), and hands the body over in one of four shapes
                 c = env.case
+                resp = cherrypy.response
                 if c['base'] != 200:
-                    cherrypy.response.status = c['base']
+                    resp.status = c['base']
                 if c['hetag'] is not None:
-                    cherrypy.response.headers['ETag'] = c['hetag']
+                    resp.headers['ETag'] = c['hetag']
                 if c['lm'] is not None:
-                    cherrypy.response.headers['Last-Modified'] = c['lm']
-                    cptools.validate_since()
-                cherrypy.response.headers['Content-Type'] = 'application/x-test'
-                return c['content']
+                    resp.headers['Last-Modified'] = c['lm']
+                resp.headers['Content-Type'] = 'application/x-test'
+                body_set = False
+                for step in case_script(c):
+                    if step == 'B':
+                        resp.body = shaped_body(c['content'], c.get('shape', 'bytes'))
+                        body_set = True
+                    elif step == 'S':
+                        cptools.validate_since()
+                    elif step == 'E':
+                        cptools.validate_etags()
+                    elif step == 'A':
+                        cptools.validate_etags(autotags=True)
+                return resp.body if body_set else shaped_body(c['content'], c.get('shape', 'bytes'))
 
         class Root:
-            e0 = H()
-            e1 = H()
-            e2 = H()
+            pass
 
         conf = {}
-        for k, extra in (('e0', {}), ('e1', {'tools.etags.on': True}),
-                         ('e2', {'tools.etags.on': True, 'tools.etags.autotags': True})):
-            conf['/' + k] = dict(extra)
-            conf['/%s/sd' % k] = {'tools.staticdir.on': True, 'tools.staticdir.dir': self.dir}
+        for st in (0, 1):
+            for k, extra in (('e0', {}), ('e1', {'tools.etags.on': True}),
+                             ('e2', {'tools.etags.on': True, 'tools.etags.autotags': True})):
+                k = 's%d%s' % (st, k)
+                setattr(Root, k, H())
+                conf['/' + k] = dict(extra)
+                if st:
+                    conf['/' + k]['response.stream'] = True
+                conf['/%s/sd' % k] = {'tools.staticdir.on': True, 'tools.staticdir.dir': self.dir}
         self.app = cherrypy.Application(Root(), '', conf)
 
     @classmethod
@@ -570,6 +599,40 @@ class _Env:
                 f.write(content)
             self.files[key] = p
         return p
+
+
+def case_script(case):
+    """The steps a `gen` handler executes before returning the entity (see c16_gen.gen_script).  Cases
+    recorded before the dimension existed: validate_since() before the body iff the handler sets Last-Modified."""
+    if case.get('script') is not None:
+        return case['script']
+    return 'S' if case.get('lm') is not None else ''
+
+
+def shaped_body(content, shape):
+    if shape == 'list':
+        k = len(content) // 3
+        return [content[:k], b'', content[k:]]
+    if shape == 'gen':
+        def chunks():
+            k = len(content) // 2
+            yield content[:k]
+            yield content[k:]
+        return chunks()
+    if shape == 'fobj':
+        return io.BytesIO(content)
+    return content
+
+
+class _Hang(BaseException):
+    """raised by the interval timer inside a request that does not return"""
+
+
+def _on_alarm(signum, frame):
+    raise _Hang()
+
+
+REQUEST_TIMEOUT_S = 60
 
 
 def wire_header(v):
@@ -606,7 +669,7 @@ def run_request(case):
         c['path'] = env.path_for(content)
         os.utime(c['path'], (case['mtime'], case['mtime']))
     env.case = c
-    ek = 'e%d' % case['etags']
+    ek = 's%de%d' % (1 if case.get('stream') else 0, case['etags'])
     path = '/%s/%s' % (ek, kind) if kind != 'tool' else '/%s/sd/%s' % (ek, os.path.basename(c['path']))
     environ = {
         'REQUEST_METHOD': case['method'], 'PATH_INFO': path, 'SCRIPT_NAME': '', 'QUERY_STRING': '',
@@ -628,16 +691,33 @@ def run_request(case):
         out['status'] = status
         out['headers'] = headers
         return lambda data: None
-    res = env.app(environ, start_response)
+    # whatever the code under test does (raise, hang, hand back odd types) is an observation
+    import signal
+    import threading
+    timed = threading.current_thread() is threading.main_thread()
+    if timed:
+        old = signal.signal(signal.SIGALRM, _on_alarm)
+        signal.setitimer(signal.ITIMER_REAL, REQUEST_TIMEOUT_S)
     try:
-        body = b''.join(res)
+        try:
+            res = env.app(environ, start_response)
+            try:
+                body = b''.join(res)             # what the WSGI iterable actually delivers
+            finally:
+                if hasattr(res, 'close'):
+                    res.close()
+            hd = {}
+            for k, v in out['headers']:
+                hd.setdefault(str(k).lower(), str(v))
+            return {'status': int(str(out['status']).split()[0]), 'headers': hd, 'body': body}
+        except _Hang:
+            return {'status': 0, 'headers': {}, 'body': b'', 'exc': 'hang(>%ds)' % REQUEST_TIMEOUT_S}
+        except Exception as e:
+            return {'status': 0, 'headers': {}, 'body': b'', 'exc': type(e).__name__}
     finally:
-        if hasattr(res, 'close'):
-            res.close()
-    hd = {}
-    for k, v in out['headers']:
-        hd.setdefault(k.lower(), v)
-    return {'status': int(out['status'].split()[0]), 'headers': hd, 'body': body}
+        if timed:
+            signal.setitimer(signal.ITIMER_REAL, 0)
+            signal.signal(signal.SIGALRM, old)
 
 
 _CR = re.compile(r'bytes (\d+)-(\d+)/(\d+)\Z')
@@ -730,8 +810,9 @@ def model_line(case, obs=None):
     case = norm_case(case)
     kind = case['kind']
     content = content_bytes(case)
+    script = case_script(case) if kind == 'gen' else ''
     if kind == 'gen':
-        lm, call = case['lm'], case['lm'] is not None
+        lm, call = case['lm'], script == 'S'
     elif kind == 'bio':
         lm, call = None, False
     else:
@@ -749,7 +830,11 @@ def model_line(case, obs=None):
         '1' if case['etags'] >= 1 else '0', '1' if case['etags'] == 2 else '0',
         enc_opt(case['hetag']), enc_text(auto), enc_opt(lm), enc_list(im), enc_list(inm),
         enc_opt(case.get('ims')), enc_opt(case.get('ius')), enc_opt(case.get('range')), cont,
-        enc_opt(multipart_boundary(obs)), enc_text('text/plain' if kind == 'tool' else 'application/x-test')])
+        enc_opt(multipart_boundary(obs)), enc_text('text/plain' if kind == 'tool' else 'application/x-test'),
+        '1' if case.get('stream') else '0', script or '-', enc_text(EMPTY_TAG)])
+
+
+EMPTY_TAG = '"%s"' % hashlib.md5(b'').hexdigest()
 
 
 # ---- the request oracle ------------------------------------------------------------------------
@@ -767,16 +852,48 @@ def _cond_list(v):
     return 'list', els
 
 
+def validation_of(case):
+    """Who evaluates which validator for this resource, read off the configuration (not off the code):
+    (since_active, etag_active, candidates for the current ETag)."""
+    kind = case['kind']
+    content = content_bytes(case)
+    md5tag = '"%s"' % hashlib.md5(content).hexdigest()
+    if kind == 'gen':
+        script = case_script(case)
+        since_active = 'S' in script
+        etag_active = case['etags'] >= 1 or 'E' in script or 'A' in script
+        auto = case['etags'] == 2 or 'A' in script
+        if not etag_active:
+            cands = [None]
+        elif case['hetag']:
+            cands = [case['hetag']]
+        else:
+            cands = [md5tag] if auto and case['base'] == 200 else [None]
+            if 'E' in script and None not in cands:
+                cands.append(None)            # an evaluation before any tag exists
+            if 'A' in script and 'B' not in script.split('A')[0] and case['base'] == 200:
+                cands.append(EMPTY_TAG)       # autotag taken before the handler produced its body
+        return since_active, etag_active, cands
+    return kind != 'bio', case['etags'] >= 1, None
+
+
 def oracle_request(case, obs):
-    """The property statement evaluated on one observed response.  Returns [(what, signature)]."""
+    """The property statement evaluated on one observed response (what the WSGI iterable delivered).
+    Returns [(what, signature)]."""
     bad = []
     case = norm_case(case)
+    if obs.get('exc'):
+        return [('the request ended in %s instead of a response' % obs['exc'], 'req:exception:' + obs['exc'])]
     kind, method, st, hd, body = case['kind'], case['method'], obs['status'], obs['headers'], obs['body']
     content = content_bytes(case)
     n = len(content)
     gh = method in ('GET', 'HEAD')
+    stream = bool(case.get('stream'))
+    cl = hd.get('content-length')
     if st >= 500:
         return [('status %d' % st, 'req:5xx')]
+    if method == 'HEAD' and body:
+        bad.append(('HEAD answered with a %d-byte body' % len(body), 'req:head_with_body'))
     # ---- what would be served without conditional headers --------------------------------
     rng_allowed = None            # list of admissible get_ranges results
     if kind == 'gen':
@@ -788,30 +905,40 @@ def oracle_request(case, obs):
             rng_allowed, _ = allowed_ranges(rh, n)
         else:
             rng_allowed = [None]
-    if kind == 'gen' and not (200 <= base <= 299):
-        # (a handler that itself answers 304 / 412 is outside the statement: only 5xx is excluded)
-        if st != base and base not in (304, 412):
-            bad.append(('handler status %d must not be changed by validators, got %d' % (base, st),
-                        'req:non2xx_base_changed'))
-        return bad
-    # ---- the current validators ------------------------------------------------------------
+    since_active, etag_active, etag_candidates = validation_of(case)
     if kind == 'gen':
-        L = case['lm']
+        L = case['lm'] if since_active else None
     elif kind == 'bio':
         L = None
     else:
         L = httpdate(case['mtime'])
-    etag_candidates = [None]
-    if case['etags'] >= 1:
-        if case['hetag']:
-            etag_candidates = [case['hetag']]
-        elif case['etags'] == 2:
-            md5tag = '"%s"' % hashlib.md5(content).hexdigest()
-            ranged = rng_allowed is not None and any(a for a in rng_allowed)   # may become a 206
-            plain = rng_allowed is None or any(a is None for a in rng_allowed)
-            if kind == 'gen':
-                etag_candidates = [md5tag] if base == 200 else [None]
-            else:
+    if kind == 'gen' and not (200 <= base <= 299):
+        # a handler that itself answers another status: the validators leave it alone (only a handler-set
+        # 304 / 412 may be re-raised as 304 / 412 by validate_since)
+        if base not in (304, 412):
+            if st != base:
+                bad.append(('handler status %d must not be changed by validators, got %d' % (base, st),
+                            'req:non2xx_base_changed'))
+            return bad
+        if st not in (304, 412):
+            bad.append(('handler status %d turned into %d' % (base, st), 'req:non2xx_base_changed'))
+        elif st == 304 and body:
+            # a 304 the validators dictate never carries a body; neither does any buffered 304 (finalize).
+            # Only a handler that sets 304 itself on a streamed response and returns a body anyway is on its own.
+            dictated = bool(L and case.get('ims') and case['ims'] == L and gh)
+            if dictated or not (stream and base == 304):
+                bad.append(('304 with a %d-byte body' % len(body), 'req:304_with_body'))
+        return bad
+    # ---- the current validators ------------------------------------------------------------
+    if etag_candidates is None:
+        etag_candidates = [None]
+        if case['etags'] >= 1:
+            if case['hetag']:
+                etag_candidates = [case['hetag']]
+            elif case['etags'] == 2:
+                md5tag = '"%s"' % hashlib.md5(content).hexdigest()
+                ranged = rng_allowed is not None and any(a for a in rng_allowed)   # may become a 206
+                plain = rng_allowed is None or any(a is None for a in rng_allowed)
                 etag_candidates = ([md5tag] if plain else []) + ([None] if ranged or not plain else [])
                 if any(a == [] for a in (rng_allowed or [])) and None not in etag_candidates:
                     etag_candidates.append(None)
@@ -826,7 +953,7 @@ def oracle_request(case, obs):
                 D.add(412)
             if case.get('ims') and case['ims'] == L:
                 D.add(nm)
-        if case['etags'] >= 1:
+        if etag_active:
             k, tags = _cond_list(case.get('im'))
             if k == 'list' and E not in tags:
                 D.add(412)
@@ -856,11 +983,21 @@ def oracle_request(case, obs):
                         'req:304_not_dictated'))
         if body:
             bad.append(('304 with a %d-byte body' % len(body), 'req:304_with_body'))
+        if 'content-range' in hd:
+            bad.append(('304 with Content-Range %r' % hd['content-range'], 'req:304_content_range'))
+        if cl is not None and cl not in ('0', str(n)):
+            bad.append(('304 with Content-Length %s (entity: %d bytes)' % (cl, n), 'req:304_content_length'))
         return bad
     if st == 412:
         if 412 not in allowed_status:
             bad.append(('412 although no validator dictates it (allowed: %s)' % sorted(map(str, allowed_status)),
                         'req:412_not_dictated'))
+        if 'content-range' in hd:
+            bad.append(('412 with Content-Range %r' % hd['content-range'], 'req:412_content_range'))
+        if method != 'HEAD' and cl is not None and cl != str(len(body)):
+            bad.append(('412 with Content-Length %s and %d body bytes' % (cl, len(body)), 'req:412_content_length'))
+        if n >= 1 and (body == content or (n >= 16 and content in body)):
+            bad.append(('412 delivers the entity (%d bytes) all the same' % n, 'req:412_with_entity'))
         return bad
     if 'base' not in allowed_status and not (st == 416 and 416 in allowed_status):
         bad.append(('status %d although the validators dictate %s' % (st, sorted(map(str, allowed_status))),
@@ -871,10 +1008,11 @@ def oracle_request(case, obs):
         if st != base:
             bad.append(('status %d, handler set %d' % (st, base), 'req:status'))
         elif method != 'HEAD' and base not in (204, 205) and body != content:
-            bad.append(('body differs from the handler body', 'req:full_body'))
-        elif base not in (204, 205) and hd.get('content-length') not in (None, str(n)):
-            bad.append(('Content-Length %s for a body of %d bytes' % (hd.get('content-length'), n),
-                        'req:200_content_length'))
+            bad.append(('body differs from the handler body (%d of %d bytes)' % (len(body), n), 'req:full_body'))
+        elif base not in (204, 205) and cl not in (None, str(n)):
+            bad.append(('Content-Length %s for a body of %d bytes' % (cl, n), 'req:200_content_length'))
+        if 'content-range' in hd:
+            bad.append(('%d with Content-Range %r' % (st, hd['content-range']), 'req:200_content_range'))
         return bad
     want_bodies = []
     for a in rng_allowed:
@@ -892,8 +1030,8 @@ def oracle_request(case, obs):
     if st == 200:
         if method != 'HEAD' and body != content:
             bad.append(('200 body is not the whole entity (%d of %d bytes)' % (len(body), n), 'req:full_body'))
-        elif hd.get('content-length') not in (None, str(n)):
-            bad.append(('200 Content-Length %s for an entity of %d bytes' % (hd.get('content-length'), n),
+        elif cl not in (None, str(n)):
+            bad.append(('200 Content-Length %s for an entity of %d bytes' % (cl, n),
                         'req:200_content_length'))
         if 'content-range' in hd:
             bad.append(('200 with Content-Range %r' % hd['content-range'], 'req:200_content_range'))
@@ -901,6 +1039,8 @@ def oracle_request(case, obs):
         if hd.get('content-range') != 'bytes */%d' % n:
             bad.append(('416 with Content-Range %r, expected "bytes */%d"' % (hd.get('content-range'), n),
                         'req:416_content_range'))
+        if method != 'HEAD' and cl is not None and cl != str(len(body)):
+            bad.append(('416 with Content-Length %s and %d body bytes' % (cl, len(body)), 'req:416_content_length'))
     elif st == 206:
         slices = [w[1] for w in want_bodies if w[0] == 206][0]
         multi = hd.get('content-type', '').lower().startswith('multipart/byteranges')
@@ -916,8 +1056,8 @@ def oracle_request(case, obs):
             elif method != 'HEAD' and body != content[a:b + 1]:
                 bad.append(('206 body is not content[%d:%d] (%d bytes delivered)' % (a, b + 1, len(body)),
                             'req:206_body'))
-            elif method != 'HEAD' and hd.get('content-length') not in (None, str(b + 1 - a)):
-                bad.append(('206 Content-Length %s for %d bytes' % (hd.get('content-length'), b + 1 - a),
+            elif cl not in (None, str(b + 1 - a)):
+                bad.append(('206 Content-Length %s for %d bytes' % (cl, b + 1 - a),
                             'req:206_content_length'))
         elif method != 'HEAD':
             parts = parse_multipart(obs)
@@ -935,6 +1075,9 @@ def oracle_request(case, obs):
             if _union(covered) != _union(wanted):
                 bad.append(('multipart parts %s do not cover the requested slices %s'
                             % (sorted(covered), sorted(wanted)), 'req:multipart_coverage'))
+            if cl is not None and cl != str(len(body)):
+                bad.append(('multipart 206 with Content-Length %s and %d body bytes' % (cl, len(body)),
+                            'req:206_content_length'))
     return bad
 
 
@@ -959,6 +1102,14 @@ def check_requests(ctx, cases, compare=True):
         ctx.count('Q:kind:%s' % case['kind'])
         ctx.count('Q:method:%s' % case['method'])
         ctx.count('Q:headers:' + ('+'.join(conds) or 'none'))
+        ctx.count('Q:stream:%d' % (1 if case.get('stream') else 0))
+        ctx.count('Q:proto:' + case['proto'])
+        if case['kind'] == 'gen':
+            ctx.count('Q:gen:script:%s' % (case_script(case) or '-'))
+            ctx.count('Q:gen:shape:%s' % case.get('shape', 'bytes'))
+            if obs['status'] in (304, 412):
+                ctx.count('Q:gen:%d:stream=%d:%s' % (obs['status'], 1 if case.get('stream') else 0,
+                                                     'after-body' if 'B' in case_script(case) or case['etags'] else 'before-body'))
         if obs['headers'].get('content-type', '').startswith('multipart/byteranges'):
             ctx.count('Q:multipart')
         for what, sig in oracle_request(case, obs):
@@ -970,7 +1121,7 @@ def check_requests(ctx, cases, compare=True):
                     what = [w for w, s2 in oracle_request(small, run_request(small)) if s2 == sig][0]
             ctx.oracle_fail(rep, '%s  [%s %s HTTP/%s etags=%d]' % (what, rep['method'], rep['kind'],
                                                                    rep['proto'], rep['etags']), sig)
-        if model is not None:
+        if model is not None and not obs.get('exc'):
             ctx.compared()
             real, mod = canon_real(case, obs), canon_model(model[idx])
             if real != mod:
@@ -1136,6 +1287,10 @@ def run(ctx):
         check_requests(ctx, table if not ctx.quick() else table[ctx.seed % 2::2])
         ctx.extra['validator_table_requests'] = len(table) if not ctx.quick() else len(table[ctx.seed % 2::2])
         mark('requests_validator_table')
+        flow = enum_flow_table()
+        check_requests(ctx, flow)
+        ctx.extra['flow_table_requests'] = len(flow)
+        mark('requests_flow_table')
         check_requests(ctx, [gen_request(rng) for _ in range(ctx.budget(5000, 8000))])
         mark('requests_generated')
         if not ctx.quick():
